@@ -58,34 +58,38 @@ def initCreatesRollback (s : Sys) (t : Tx) (target : Tx) : List Effect :=
     | none => some (.createProp
         { target := tgt, index := t.index, isRollback := true, rollbackOf := t.rollbackIndex })
 
+/-- the INITIALIZING branch waits while the previous transaction of the log has not initialised -/
+def waitsPrevInit (s : Sys) (t : Tx) : Bool :=
+  match s.tx? (t.index - 1) with
+  | some prev => prev.init == .none || prev.init == .opened
+  | none => false
+
+/-- INITIALIZING, previous transaction initialised: create the proposals / close the phase -/
+def txInitProposals (s : Sys) (t : Tx) : Plan :=
+  match t.proposals with
+  | none =>
+    if !t.isRollback then
+      { effects := initCreatesChange s t ++
+          [.tx t.index t.version (.setProposals (t.changes.map fun c => (c.1, t.index)))] }
+    else
+      match s.tx? t.rollbackIndex with
+      | none => { effects := [.tx t.index t.version (.initFailed .notFound)] }
+      | some target =>
+        if target.isRollback then { effects := [.tx t.index t.version (.initFailed .forbidden)] }
+        else
+          { effects := initCreatesRollback s t target ++
+              [.tx t.index t.version (.setProposals (target.changes.map fun c => (c.1, t.index)))] }
+  | some ids =>
+    match getProps s ids with
+    | none => .nop
+    | some ps =>
+      if ps.all (fun p => !(p.init == .none || p.init == .opened)) then
+        { effects := [.tx t.index t.version .initDone] }
+      else .nop
+
 def txInitialize (s : Sys) (t : Tx) : Plan :=
   match t.init with
-  | .opened =>
-    -- wait for the previous transaction to have initialised
-    if (match s.tx? (t.index - 1) with
-        | some prev => prev.init == .none || prev.init == .opened
-        | none => false) = true then .nop
-    else
-      match t.proposals with
-      | none =>
-        if !t.isRollback then
-          { effects := initCreatesChange s t ++
-              [.tx t.index t.version (.setProposals (t.changes.map fun c => (c.1, t.index)))] }
-        else
-          match s.tx? t.rollbackIndex with
-          | none => { effects := [.tx t.index t.version (.initFailed .notFound)] }
-          | some target =>
-            if target.isRollback then { effects := [.tx t.index t.version (.initFailed .forbidden)] }
-            else
-              { effects := initCreatesRollback s t target ++
-                  [.tx t.index t.version (.setProposals (target.changes.map fun c => (c.1, t.index)))] }
-      | some ids =>
-        match getProps s ids with
-        | none => .nop
-        | some ps =>
-          if ps.all (fun p => !(p.init == .none || p.init == .opened)) then
-            { effects := [.tx t.index t.version .initDone] }
-          else .nop
+  | .opened => if waitsPrevInit s t then .nop else txInitProposals s t
   | .done =>
     match getProps s (t.proposals.getD []) with
     | none => .nop
